@@ -332,6 +332,7 @@ namespace RecInt
     // a = b*b
     template <size_t K>
     inline ruint<K+1>& lsquare(ruint<K+1>& a, const ruint<K>& b) {
+        if (&b == &a.High || &b == &a.Low) { const ruint<K> bb(b); return lsquare(a, bb); } // b may be a half of a
         bool rbb, ralb, rbah;
         ruint<K> bhbl;
 
